@@ -177,13 +177,13 @@ class ShiftedVec:
 class Hole:
     """logL = slope*x0 on {u0 < f} (in x units: x0 < 20f-10), -inf elsewhere (affine prior)."""
 
-    def __init__(self, f, slope=0.0, blobs=False):
-        self.f, self.slope, self.blobs = f, slope, blobs
+    def __init__(self, f, slope=0.0, blobs=False, level=0.0):
+        self.f, self.slope, self.blobs, self.level = f, slope, blobs, level
 
     def __call__(self, x):
         x = np.asarray(x, dtype=float)
         inside = x[0] < 20.0 * self.f - 10.0
-        v = float(self.slope * x[0]) if inside else -np.inf
+        v = float(self.level + self.slope * x[0]) if inside else -np.inf
         if self.blobs:
             return v, blob_of(x)
         return v
